@@ -14,6 +14,7 @@ __all__ = [
 
 
 import collections
+import copy
 import re
 
 from .. import util
@@ -645,6 +646,10 @@ class PureLuaWriter(BaseLuaWriter):
 
         if not line_toks:
             return b'\n'
+
+        # (Edit copies: the tokens belong to the Lua object, which may be
+        # written again afterwards.)
+        line_toks = [copy.copy(t) for t in line_toks]
 
         # Comment beginning with //
         if line_toks[-1].matches(lexer.TokComment):
